@@ -39,6 +39,13 @@ class MachineryError(Exception):
     """Something in the verification machinery failed: exit 2, never a violation."""
 
 
+class HarnessCrash(MachineryError):
+    """The harness process was killed by the Go runtime ("fatal error: ...")."""
+    def __init__(self, fatal, frame, tail, msg):
+        MachineryError.__init__(self, msg)
+        self.fatal, self.frame, self.tail = fatal, frame, tail
+
+
 class TLCResult:
     def __init__(self):
         self.generated = 0
@@ -344,7 +351,15 @@ class Ctx:
             except Exception:
                 raise MachineryError("harness %s wrote an unparsable line: %r" % (cmd, line[:200]))
         if p.returncode != 0:
-            raise MachineryError("harness %s exited %d: %s" % (cmd, p.returncode, p.stderr.decode(errors="replace")[-3000:]))
+            err = p.stderr.decode(errors="replace")
+            m = re.search(r"^fatal error: .*$", err, re.M)
+            if m:
+                # the Go runtime killed the process (concurrent map writes, stack exhaustion, ...): not recoverable
+                # inside the harness, but still the library's doing when the stack shows its frames
+                lib = re.search(r"github\.com/matrix-org/gomatrixserverlib[\w/.]*\.\(?\*?[\w.()*]+", err)
+                raise HarnessCrash(m.group(0).strip(), lib.group(0) if lib else "", err[-3000:],
+                                   "harness %s exited %d: %s" % (cmd, p.returncode, err[-3000:]))
+            raise MachineryError("harness %s exited %d: %s ... %s" % (cmd, p.returncode, err[:600], err[-2400:]))
         return res
 
     def replay_and_compare(self, cmd, records, args=None, race=False, key_of=None, what_of=None,
@@ -353,7 +368,26 @@ class Ctx:
         alone in a fresh process and, if it reproduces, reported.  Returns list of result dicts."""
         if not records:
             raise MachineryError("no records to replay for %s (dead generator)" % cmd)
-        res = self.harness(cmd, records, args=args, race=race, timeout=timeout, env=env, pkg=pkg)
+        try:
+            res = self.harness(cmd, records, args=args, race=race, timeout=timeout, env=env, pkg=pkg)
+        except HarnessCrash as c1:
+            # a fatal runtime error while the library handled these inputs: once more in a fresh process
+            if not c1.frame:
+                raise
+            for _ in range(3):
+                try:
+                    self.harness(cmd, records, args=args, race=race, timeout=timeout, env=env, pkg=pkg)
+                except HarnessCrash as c2:
+                    if c2.frame:
+                        kind = "concurrent-map-access" if "concurrent map" in c1.fatal else re.sub(r"[^A-Za-z]+", "-", c1.fatal)[:60]
+                        self.disagree("%s/fatal/%s/%s" % (self.pid, cmd, kind),
+                                      "the Go runtime aborted the process while the library handled the batch (again in a fresh "
+                                      "process): %s in %s\n%s" % (c2.fatal, c2.frame, c2.tail[-1200:]),
+                                      {"harness": cmd, "pkg": pkg, "args": args or [], "count": 1, "fatal": c1.fatal})
+                        return []
+                except MachineryError:
+                    break
+            raise c1
         body = [r for r in res if "i" in r]
         if len(body) != len(records):
             raise MachineryError("harness %s answered %d of %d records" % (cmd, len(body), len(records)))
@@ -389,8 +423,9 @@ class Ctx:
             first = None
             for cand in rs[:3]:
                 rec = records[cand["i"]]
+                renv = dict(env or {}, VERIF_INDEX_BASE=str(cand["i"]))
                 for _ in range(max(1, getattr(self, "repro_attempts", 2))):
-                    again = self.harness(cmd, [rec], args=args, race=race, timeout=timeout, env=env, pkg=pkg)
+                    again = self.harness(cmd, [rec], args=args, race=race, timeout=timeout, env=renv, pkg=pkg)
                     again = [r for r in again if "i" in r]
                     if again and not again[0].get("ok"):
                         first = cand
@@ -405,7 +440,43 @@ class Ctx:
             what = first.get("what") or (what_of(rec, first) if what_of else json.dumps({x: first[x] for x in first if x not in ("i", "ok")})[:300])
             self.disagree(k, what, {"harness": cmd, "pkg": pkg, "args": args or [], "record": rec, "result": first, "count": len(rs), "versions": vers})
         if unreproduced:
-            if len(unreproduced) == len(groups):
+            # A misbehaviour that needs earlier calls in the same process (a cache or a shared default that one input
+            # leaves behind for the next) cannot show when a record is run alone.  The whole batch is run once more
+            # in a fresh process: a group whose key fails there again is a reproduced run of the real code, and is
+            # reported with the batch as its replay.
+            try:
+                res2 = self.harness(cmd, records, args=args, race=race, timeout=timeout, env=env, pkg=pkg)
+            except MachineryError:
+                res2 = []
+            again_keys = {}
+            for r in res2:
+                if "i" in r and not r.get("ok"):
+                    k2 = r.get("key") or (key_of(records[r["i"]], r) if key_of else "unkeyed")
+                    if k2 in ("panic", "hang"):
+                        k2 = "%s/%s/%s" % (self.pid, k2, cmd)
+                    again_keys.setdefault(k2, r)
+            still = []
+            batch_path = None
+            for k, first in unreproduced:
+                if k in again_keys:
+                    if batch_path is None:
+                        d = os.path.join(ROOT, "replays", self.pid if REPO == "/repo" else self.pid + "_alt")
+                        os.makedirs(d, exist_ok=True)
+                        import gzip
+                        batch_path = os.path.join(d, "batch_%s_%d.ndjson.gz" % (cmd, os.getpid()))
+                        with gzip.open(batch_path, "wt") as f:
+                            for rec in records:
+                                f.write(json.dumps(rec) + "\n")
+                    r2 = again_keys[k]
+                    what = (r2.get("what") or first.get("what") or "")[:1500] + \
+                        " [shows only after other inputs were handled in the same process: the record alone passes; reproduced by running the batch again in a fresh process]"
+                    self.disagree(k, what, {"harness": cmd, "pkg": pkg, "args": args or [], "record": records[r2["i"]],
+                                            "result": r2, "count": 1, "needs_batch": batch_path})
+                else:
+                    still.append((k, first))
+            unreproduced = still
+        if unreproduced:
+            if not self.violations:
                 k, first = unreproduced[0]
                 raise MachineryError("disagreement %s did not reproduce in a fresh process: %s" % (k, json.dumps(first)[:500]))
             # some groups reproduced (and are reported); the others are only noted
